@@ -108,6 +108,13 @@ func (w *World) evalMethods(node string) []*FuncInfo {
 	var out []*FuncInfo
 	for _, f := range w.compilerMethods() {
 		sig := f.Obj.Type().(*types.Signature)
+		// a node evaluator: func (c *compiler) evalX(node T) (interface{}, error)
+		if sig.Params().Len() != 1 || sig.Results().Len() != 2 || !isErrorType(sig.Results().At(1).Type()) {
+			continue
+		}
+		if _, isIface := sig.Results().At(0).Type().Underlying().(*types.Interface); !isIface {
+			continue
+		}
 		for i := 0; i < sig.Params().Len(); i++ {
 			if namedIs(sig.Params().At(i).Type(), astPath, node) {
 				if _, isPtr := sig.Params().At(i).Type().(*types.Pointer); isPtr || node == "Expression" || node == "Statement" {
